@@ -53,6 +53,10 @@ Theorems:
                        `VNetEng.engOutcome`) has non-zero probability in the ideal state at that
                        point — `(-1)^(o+1) Z_tok` is not in the ideal group — and is the bit the
                        ideal register reports for the same coin.
+* per op kind, the same token-level transformer on both sides: `engines_new_group` / `ideal_new_group`
+  (`TAdded`), `engines_gate1_group` / `ideal_gate1_group` (`TOp.conj1`), `engines_gate2_group` /
+  `ideal_gate2_group` (`TOp.conj2`), `engines_measure_group`, `engines_remove_group` /
+  `ideal_measure_group` (`TCollapsed`, `TRestricted`), `moves_keep_joint_group`, `gate2_calls_shape`.
 * supporting facts: `lift_injective`, `z_in_joint_iff_in_register` (the other registers cannot
   contribute to an operator supported on one register), `jinv_from_agree`, `slots_are_all_tokens`.
 -/
@@ -122,6 +126,86 @@ theorem gate2_calls_shape (s : Net) (hc ht : Nat) (g : G2) :
       (nr = [] ∨ ∃ a na, s.nodes[a]? = some na ∧ nr = [.newReg a na.nextReg]) ∧
       (tail = [] ∨ ∃ n r c t, tail = [.gate2 g n r c t]) :=
   stepGate2_shape s hc ht g
+
+/-! ### (a') per kind of operation: the same token-level transformer on both sides -/
+
+/-- `new`, engines: a new register with one fresh |0> qubit labelled with the next token — the
+joint group gains the factor ⟨Z_tok⟩ -/
+theorem engines_new_group {rc : Bool} {s : Net} {e e' : EngSt} {n r : Nat} (hwf : WF s) (hA : Agree s e)
+    (hnone : aget e.regs (n, r) = none) (h : runOps rc e [.newReg n r, .addFresh n r] = some e') (t : TOp) :
+    JointGroup e' t ↔ TAdded (JointGroup e) e.next t := by
+  obtain ⟨e1, h1, h⟩ := runOps_cons h
+  obtain ⟨e2, h2, h⟩ := runOps_cons h
+  have := runOps_nil h; subst this
+  obtain ⟨hJ1, hn1, _, hg1, hk1⟩ := eop_newReg (jinv_of_agree hwf hA) hnone h1
+  obtain ⟨_, _, _, _, _, _, hg2⟩ := eop_addFresh hJ1 hk1 h2
+  rw [hg2, hn1]
+  exact tadded_congr hg1 e.next t
+
+/-- `new`, ideal register: `Stab.addQubit` with an unused token — the same transformer -/
+theorem ideal_new_group {I : Ideal} (h : I.OK) {x : Nat} (hx : x ∉ I.toks) (t : TOp) :
+    IdealGroup (I.new x) t ↔ TAdded (IdealGroup I) x t :=
+  (ideal_new h hx).2 t
+
+/-- `gate1`, engines: conjugation at the token labelling the addressed slot, on the one register
+that holds it; the other factors are untouched -/
+theorem engines_gate1_group {rc : Bool} {s : Net} {e e' : EngSt} {g : G1} {g' : Gate1} {n r p x : Nat} {en : LEng}
+    (hwf : WF s) (hA : Agree s e) (hg : g1Gate g = some g') (hk : aget e.regs (n, r) = some en)
+    (hj : en.lab.slots[p]? = some x) (h : applyEOp rc e (.gate1 g n r p) = some e') (t : TOp) :
+    JointGroup e' t ↔ ∃ t0, JointGroup e t0 ∧ t ≈ₜ t0.conj1 g' x :=
+  (eop_gate1 (jinv_of_agree hwf hA) hg hk hj h).2.2.2 t
+
+/-- `gate1`, ideal register: `Stab.applyGate1` at the token's position — the same transformer -/
+theorem ideal_gate1_group {I : Ideal} (h : I.OK) (g : Gate1) {j x : Nat} (hj : I.toks[j]? = some x) :
+    ∃ I', I.gate1 g x = some I' ∧ I'.toks = I.toks ∧
+      ∀ t, IdealGroup I' t ↔ ∃ t0, IdealGroup I t0 ∧ t ≈ₜ t0.conj1 g x := by
+  obtain ⟨I', h1, _, h3, h4⟩ := ideal_gate1 h g hj
+  exact ⟨I', h1, h3, h4⟩
+
+/-- `gate2`, engines (after the merges): conjugation at the control's and the target's token -/
+theorem engines_gate2_group {rc : Bool} {e e' : EngSt} {g : G2} {n r pc pt c d : Nat} {en : LEng} (hJ : JInv e)
+    (hk : aget e.regs (n, r) = some en) (hjc : en.lab.slots[pc]? = some c) (hjd : en.lab.slots[pt]? = some d)
+    (h : applyEOp rc e (.gate2 g n r pc pt) = some e') (t : TOp) :
+    JointGroup e' t ↔ ∃ t0, JointGroup e t0 ∧ t ≈ₜ t0.conj2 (g2Gate g) c d :=
+  (eop_gate2 hJ hk hjc hjd h).2.2.2 t
+
+/-- `gate2`, ideal register: `Stab.applyGate2` at the two tokens' positions — the same transformer -/
+theorem ideal_gate2_group {I : Ideal} (h : I.OK) (g : Gate2) {jc jd c d : Nat} (hjc : I.toks[jc]? = some c)
+    (hjd : I.toks[jd]? = some d) (hne : c ≠ d) :
+    ∃ I', I.gate2 g c d = some I' ∧ I'.toks = I.toks ∧
+      ∀ t, IdealGroup I' t ↔ ∃ t0, IdealGroup I t0 ∧ t ≈ₜ t0.conj2 g c d := by
+  obtain ⟨I', h1, _, h3, h4⟩ := ideal_gate2 h g hjc hjd hne
+  exact ⟨I', h1, h3, h4⟩
+
+/-- in-place measurement, engines: the joint group collapses at the token with the outcome the
+engine returns — `⟨(-1)^o Z_tok⟩ · {t ∈ joint group | t commutes with Z_tok}` -/
+theorem engines_measure_group {rc : Bool} {s : Net} {e e' : EngSt} {n r p x : Nat} {oc : Bool} {en : LEng}
+    (hwf : WF s) (hA : Agree s e) (hk : aget e.regs (n, r) = some en) (hj : en.lab.slots[p]? = some x)
+    (h : applyEOp rc e (.measInplace n r p oc) = some e') :
+    ∃ o, engOutcome e (.measInplace n r p oc) = some o ∧ ∀ t, JointGroup e' t ↔ TCollapsed (JointGroup e) x o t := by
+  obtain ⟨o, _, h1, _, _, _, _, _, _, _, h2⟩ := eop_measInplace (jinv_of_agree hwf hA) hk hj h
+  exact ⟨o, h1, h2⟩
+
+/-- `remove_qubit` after an in-place measurement of the same slot with outcome `o`: the collapsed
+joint group is restricted to the remaining tokens -/
+theorem engines_remove_group {rc : Bool} {e e' : EngSt} {n r p x : Nat} {o : Bool} {en : LEng} (hJ : JInv e)
+    (hk : aget e.regs (n, r) = some en) (hj : en.lab.slots[p]? = some x)
+    (hz : InGroup en.eng.st.n en.eng.st.rows (zAt en.eng.st.n p o))
+    (h : applyEOp rc e (.remove n r p) = some e') (t : TOp) :
+    JointGroup e' t ↔ TRestricted (JointGroup e) x o t := by
+  obtain ⟨_, _, _, _, _, _, h2⟩ := eop_remove hJ hk hj hz h
+  exact h2 t
+
+/-- measurement, ideal register: ONE call of `Stab.measure` at the token's position; in place the
+group collapses, destructively it collapses and the token is dropped — the same transformers;
+and the reported outcome has non-zero probability (C14) -/
+theorem ideal_measure_group {I : Ideal} (h : I.OK) {j x : Nat} (hj : I.toks[j]? = some x) (ip coin : Bool) :
+    ∃ o I', I.measure x ip coin = some (o, I') ∧ I'.toks = (if ip then I.toks else I.toks.eraseIdx j) ∧
+      ¬ InGroup I.st.n I.st.rows (zAt I.st.n j (!o)) ∧
+      ∀ t, IdealGroup I' t ↔
+        if ip then TCollapsed (IdealGroup I) x o t else TRestricted (TCollapsed (IdealGroup I) x o) x o t := by
+  obtain ⟨o, st', _, h2, _, h4, h5⟩ := ideal_measure h hj ip coin
+  exact ⟨o, _, h2, rfl, h4, h5⟩
 
 /-! ### (a) one step -/
 
@@ -227,18 +311,19 @@ def jointOps : List Op :=
 def caps3 : List (Nat × Nat) := [(3, 5), (3, 5), (3, 5)]
 
 /-- the engines: ONE register at node 2 with slots labelled [2, 0, 1] (the control's register was
-pulled first); the ideal register: qubits labelled [0, 1, 2] in order of creation.  The two
-generator lists differ by the qubit permutation; `joint_run` says the groups agree on tokens -/
+pulled first), generators Z₂, X₀X₁, Z₂Z₀Z₁; the ideal register: qubits labelled [0, 1, 2] in
+order of creation, generators X₀X₁, Z₀Z₁Z₂, Z₂.  The two generator lists differ by the qubit
+permutation and a change of generators; `joint_run` says the GROUPS agree on tokens -/
 example :
     (runProg false (init caps3) EngSt.empty jointOps).map (fun p => p.2.regs.map fun q => (q.1, q.2.lab.slots, q.2.eng.st)) =
       some [((2, 0), [2, 0, 1],
-              { n := 3, rows := [⟨[(true, false), (true, false), (true, false)], false⟩,
-                                 ⟨[(false, true), (false, false), (false, false)], false⟩,
-                                 ⟨[(false, false), (false, true), (false, true)], false⟩] })] ∧
+              { n := 3, rows := [⟨[(false, true), (false, false), (false, false)], false⟩,
+                                 ⟨[(false, false), (true, false), (true, false)], false⟩,
+                                 ⟨[(false, true), (false, true), (false, true)], false⟩] })] ∧
     idealRunQ (init caps3) Ideal.empty jointOps =
       some ⟨[0, 1, 2],
-            { n := 3, rows := [⟨[(true, false), (true, false), (true, false)], false⟩,
-                               ⟨[(false, true), (false, true), (false, false)], false⟩,
+            { n := 3, rows := [⟨[(true, false), (true, false), (false, false)], false⟩,
+                               ⟨[(false, true), (false, true), (false, true)], false⟩,
                                ⟨[(false, false), (false, false), (false, true)], false⟩] }⟩ := by
   decide
 
@@ -251,13 +336,13 @@ example : ∃ e' I', runProg false (init caps3) EngSt.empty jointOps = some ((ru
   obtain ⟨e', I', h1, _, h2, _, _, hg⟩ := joint_run false caps3 jointOps
   have hI : idealRunQ (init caps3) Ideal.empty jointOps =
       some ⟨[0, 1, 2],
-            { n := 3, rows := [⟨[(true, false), (true, false), (true, false)], false⟩,
-                               ⟨[(false, true), (false, true), (false, false)], false⟩,
+            { n := 3, rows := [⟨[(true, false), (true, false), (false, false)], false⟩,
+                               ⟨[(false, true), (false, true), (false, true)], false⟩,
                                ⟨[(false, false), (false, false), (false, true)], false⟩] }⟩ := by decide
   rw [hI] at h2
   cases h2
   refine ⟨e', _, h1, hI, rfl, hg, (hg _).2 ⟨_, ?_, teqv_refl _⟩⟩
-  exact ⟨[false, true, false], rfl, by decide, by decide⟩
+  exact ⟨[false, true, true], rfl, by decide, by decide⟩
 
 /-- a state with the qubits spread over TWO registers at two nodes (before the last gate:
 register [0, 1] at node 0 holding a Bell pair, register [2] at node 1), tokens held by nodes 1
@@ -288,7 +373,7 @@ example : ∃ s e I, WF s ∧ Agree s e ∧ I.OK ∧ (∀ x, x ∈ I.toks ↔ x 
   simp only [Option.map_some, Option.some.injEq] at hE
   exact ⟨_, e', I', C02.wf_run _ _, a1, ok, tok, hg, hE, by decide⟩
 
-/-- a real measurement record on the GHZ state: node 1 measures token 1 destructively, the
+/-- a real measurement record on that state (stabilized by Z₀Z₁Z₂ and Z₂): node 1 measures token 1 destructively, the
 engine's coin (= the record) says 1; node 2 then measures token 0 in place: the engine returns 1
 whatever the coin, so the record "1" is real, and `outcomes_possible_in_ideal` applies: `+Z` at the
 position of token 0 is not in the ideal group and the ideal register reports 1 as well -/
